@@ -36,7 +36,7 @@ fam('annot_lambda', depth=4, maxstack=3,
               ('APPLY',), ('EXEC',), PUSH(NAT, i(2)), ('SWAP',), ('DIG', 2)])
 
 FAMS = ['comb', 'annot_text', 'annot_keys', 'adt', 'optlist', 'types_map', 'types_list', 'annot_lambda']
-SCHEMES = ['field-all', 'type-all', 'both-all', 'field-inner-pairs', 'type-inner-pairs', 'field-bare']
+SCHEMES = ['field-all', 'type-all', 'both-all', 'field-inner-pairs', 'type-inner-pairs', 'field-bare', 'field-all+accessors']
 
 
 def annotate_type(tj, scheme, path=(), parent=None, idx=0):
@@ -44,7 +44,7 @@ def annotate_type(tj, scheme, path=(), parent=None, idx=0):
     ann = []
     inner_pair = tj.get('prim') == 'pair' and parent == 'pair' and idx == 1
     in_pair_or = parent in ('pair', 'or')
-    if scheme in ('field-all', 'both-all') and in_pair_or:
+    if scheme in ('field-all', 'both-all', 'field-all+accessors') and in_pair_or:
         ann.append('%%f%d' % (len(path) * 2 + idx))
     if scheme in ('type-all', 'both-all'):
         ann.append(':t%d' % (len(path) * 2 + idx))
@@ -68,18 +68,21 @@ TYPE_ARG_INSTRS = {'PUSH': [0], 'NONE': [0], 'NIL': [0], 'LEFT': [0], 'RIGHT': [
                    'LAMBDA_REC': [0, 1], 'CAST': [0]}
 
 
-def annotate_instr(ij, scheme):
+def annotate_instr(ij, scheme, in_lambda=False):
     if isinstance(ij, list):
-        return [annotate_instr(x, scheme) for x in ij]
+        return [annotate_instr(x, scheme, in_lambda) for x in ij]
     ij = dict(ij)
     args = list(ij.get('args', []))
     for k, a in enumerate(args):
         if k in TYPE_ARG_INSTRS.get(ij['prim'], []):
             args[k] = annotate_type(a, scheme)
         elif isinstance(a, list) and ij['prim'] != 'PUSH':
-            args[k] = annotate_instr(a, scheme)
+            args[k] = annotate_instr(a, scheme, in_lambda or ij['prim'] in ('LAMBDA', 'LAMBDA_REC'))
     if args:
         ij['args'] = args
+    # (not inside lambda bodies: the code of a lambda is data, and its instruction annotations are legitimately part of its packed form)
+    if scheme == 'field-all+accessors' and ij['prim'] in ('CAR', 'CDR') and not in_lambda:
+        ij['annots'] = ['%acc']       # the accessors name what they read their own way, the types name their fields another way: names are not part of types
     return ij
 
 
